@@ -18,7 +18,8 @@ CONSTANTS OPS,        \* operations enumerated in this run
           GUESS,      \* {"none", "fresh", "big", "alias", "reused"}
           SEEDS,      \* internal RNG seeds
           BACKENDS,   \* {"py"} or {"py", "cpp"}
-          PREC, MAXFULL, SOLVER, SYSCLS   \* amen_solve: preconditioner, max_full, local solver, system class
+          PREC, MAXFULL, SOLVER, SYSCLS,  \* amen_solve: preconditioner, max_full, local solver, system class
+          SCALES      \* magnitude classes: "unit", "bigcore" (one non-final core of the first operand times 1e5), "small" (overall 1e-5)
 
 VARIABLES cfg, expect
 vars == <<cfg, expect>>
@@ -41,7 +42,8 @@ MinOrder(op) == IF op \in ProductOps THEN 1 ELSE 2
 Init == /\ expect = [t |-> "none"]
         /\ \E op \in OPS, N \in SHAPES, r \in RANKS, e \in EPSEXP, g \in GUESS, s \in SEEDS, cx \in BOOLEAN, be \in BACKENDS,
               data \in {"rand", "decay"}, sq \in BOOLEAN,
-              prec \in PREC \cup {"none"}, mf \in MAXFULL \cup {500}, ls \in SOLVER \cup {1}, sys \in SYSCLS \cup {"na"} :
+              prec \in PREC \cup {"none"}, mf \in MAXFULL \cup {500}, ls \in SOLVER \cup {1}, sys \in SYSCLS \cup {"na"},
+              sc \in SCALES \cup {"unit"} :
              /\ Len(N) >= MinOrder(op)
              /\ (g # "none" => HasGuess(op))
              /\ (cx => ComplexOK(op))
@@ -50,6 +52,9 @@ Init == /\ expect = [t |-> "none"]
              /\ (sq => op \in {"fast_matvec", "amen_mv", "amen_mm", "amen_solve"})      \* square operator
              /\ (g = "alias" => (sq \/ op \notin {"fast_matvec", "amen_mv", "amen_mm"}))
              /\ (op \notin SolveOps => prec = "none" /\ mf = 500 /\ ls = 1 /\ sys = "na")
+             \* relative accuracy is scale invariant: badly scaled cores / tiny magnitudes are inputs like any other
+             /\ (sc = "bigcore" => op \in ProductOps /\ Len(N) >= 2 /\ g = "none")
+             /\ (sc = "small" => op \in CrossOps \cup ProductOps /\ g = "none")
              \* amen_solve: data = "rand" is a consistent right-hand side b = A x* with x* of rank r, data = "decay" a random
              \* right-hand side of rank r (the solution then has larger ranks and the local systems exceed max_full)
              /\ (op \in SolveOps => sys # "na" /\ sq)
@@ -59,7 +64,7 @@ Init == /\ expect = [t |-> "none"]
              /\ (op \in DivideOps \cup CrossOps \cup ManifoldOps => data = "rand" /\ ~sq)
              /\ (op = "elementwise_divide_c" \/ op \in {"div", "rdiv"} => g \in {"none"} \/ op = "elementwise_divide_c")
              /\ cfg = [op |-> op, N |-> N, M |-> IF sq THEN N ELSE RowsOf(N), r |-> r, e |-> e, guess |-> g, seed |-> s, cx |-> cx,
-                       backend |-> be, data |-> data, prec |-> prec, maxfull |-> mf, solver |-> ls, sys |-> sys]
+                       backend |-> be, data |-> data, prec |-> prec, maxfull |-> mf, solver |-> ls, sys |-> sys, scale |-> sc]
 
 \* the abstract expected outcome
 Outcome(c) ==
